@@ -67,6 +67,7 @@ struct Duct {
     rwaker: Option<Waker>,
     reader_dropped: Option<u64>,
     read_calls: u64,
+    write_errors: u64,
 }
 
 struct Task {
@@ -294,6 +295,7 @@ pub fn new_duct(name: &str, forward: bool) -> DuctId {
             rwaker: None,
             reader_dropped: None,
             read_calls: 0,
+            write_errors: 0,
         });
         w.ducts.len() - 1
     })
@@ -407,6 +409,11 @@ pub fn unread(d: DuctId) -> usize {
     })
 }
 
+/// how many library writes on this duct were answered with an injected error
+pub fn write_errors(d: DuctId) -> u64 {
+    with(|w| w.ducts[d].write_errors)
+}
+
 pub fn read_calls(d: DuctId) -> u64 {
     with(|w| w.ducts[d].read_calls)
 }
@@ -500,7 +507,10 @@ impl AsyncWrite for PipeWriter {
                     }
                 }
                 WMode::Stalled => 0,
-                WMode::Fail(k) => return Poll::Ready(Err(io::Error::new(k, "injected write error"))),
+                WMode::Fail(k) => {
+                    duct.write_errors += 1;
+                    return Poll::Ready(Err(io::Error::new(k, "injected write error")));
+                }
             };
             if n == 0 {
                 duct.wwaker = Some(cx.waker().clone());
